@@ -638,7 +638,7 @@ def tagged_shape_cases(rng):
     import terms
     out = []
     for lay in ('internal', 'external', ('adjacent', 't', 'c'), ('adjacent', 'tag', 'content')):
-        for tvs in (['a', 'b'], [1, 'x']):
+        for tvs in (['a', 'b'], [1, 'x'], [1, False], [True, 0]):     # the last two: tags of several kinds, one equal (==) to a value of another's kind
             tag = 'kind'
             variants = []
             for i, tv in enumerate(tvs):
@@ -647,7 +647,8 @@ def tagged_shape_cases(rng):
                 variants.append((tv, ('class', {'name': terms.fresh_name('Tv'), 'fields': fields, 'opts': {}, 'hook': None})))
             term = ('tagged', tag, lay, variants)
             bodies = [(tvs[0], {'x': 1}), (tvs[0], {'x': 'no'}), (tvs[0], {}), (tvs[1], {'y': 's'}), (tvs[1], {}), (tvs[1], {'y': 2}), (tvs[0], {'x': 1, 'zz': 0}), (tvs[0], [1]), (tvs[1], None)]
-            odd_tags = [None, 'zzz', 1.5, True, [1], {}, (tvs[0],), ([tvs[0]],), 2]
+            odd_tags = [None, 'zzz', 1.5, True, [1], {}, (tvs[0],), ([tvs[0]],), 2, 0, False, 1, 1.0, 0.0, '']
+            odd_tags = [ot for ot in odd_tags if not any(type(ot) is type(tv) and ot == tv for tv in tvs)]
             vals = [5, 'a', None, [], {}, [tvs[0], {'x': 1}]]
             for tv, body in bodies:
                 if lay == 'internal':
@@ -695,6 +696,61 @@ def std_kind_cases(rng):
             out.append((('union', [term, ('scalar', 'str')]), v))
             out.append((('union', [('scalar', 'int'), term]), v))
             out.append((('class', holder), {'v': v}))
+    return out
+
+def literal_boundary_cases(rng):
+    """Literal types that list values which compare equal but are different values (0 / False, 1 / True), in both orders
+    and beside other values, with every listed value, the equal values of kinds that are NOT listed (1.0, 0.0, the other of
+    int / bool) and an unlisted value: alone, as list element, as mapping value, in a union before str, as a dataclass field.
+    Deterministic.  (term, value) pairs."""
+    import terms
+    out = []
+    lists = [[False, 0], [0, False], [True, 1, 2], [1, True], [False, 0, 1, 2], [2, 1, 0, False], [None, 0, False], ['', 0, False],
+             ['a', 1, True], [True, 1], [0], [False], [1, 2], ['1', 1]]
+    probes = [0, False, 1, True, 2, 0.0, 1.0, -0.0, None, '', 'a', '1', 3]
+    for vals in lists:
+        term = ('literal', list(vals))
+        holder = {'name': terms.fresh_name('Lit'), 'fields': [{'name': 'v', 'ty': term}, {'name': 'n', 'ty': ('scalar', 'int'), 'default': ('value', 0)}], 'opts': {}, 'hook': None}
+        for v in probes:
+            out.append((term, v))
+            out.append((('seq', 'list', term), [v]))
+            out.append((('dict', ('scalar', 'str'), term), {'k': v}))
+            out.append((('union', [term, ('scalar', 'str')]), v))
+            out.append((('class', holder), {'v': v}))
+        out.append((('seq', 'list', term), list(vals) + list(vals)[::-1]))
+    return out
+
+def degenerate_class_cases(rng):
+    """dataclasses at the edges of the field list -- no field at all, only init=False fields, only keyword-only fields, only
+    defaulted fields, a single required field; with and without the tuple layout -- given the empty mapping, the empty
+    sequence, a surplus key / element, None and a non-container: alone, as list element, as Optional, as mapping value and as
+    a field of another dataclass.  Deterministic.  (term, value) pairs."""
+    import terms
+    I, S = ('scalar', 'int'), ('scalar', 'str')
+    shapes = [
+        ('Empty', [], {}),
+        ('EmptyT', [], {'in_format': ('tuple', 'struct')}),
+        ('EmptyX', [], {'allow_extra': True}),
+        ('NonInit', [{'name': 'a', 'ty': I, 'init': False, 'default': ('value', 0)}], {}),
+        ('NonInitT', [{'name': 'a', 'ty': I, 'init': False, 'default': ('value', 0)}], {'in_format': ('tuple', 'struct')}),
+        ('KwOnly', [{'kw_marker': True}, {'name': 'a', 'ty': I, 'default': ('value', 1)}], {'in_format': ('tuple', 'struct')}),
+        ('Defaults', [{'name': 'a', 'ty': I, 'default': ('value', 0)}, {'name': 'b', 'ty': S, 'default': ('value', '')}], {'in_format': ('tuple', 'struct')}),
+        ('OneReq', [{'name': 'a', 'ty': I}], {'in_format': ('tuple', 'struct')}),
+        ('NonInitFirst', [{'name': 'z', 'ty': S, 'init': False, 'default': ('value', 'z')}, {'name': 'a', 'ty': I}, {'name': 'b', 'ty': I, 'default': ('value', 0)}],
+         {'in_format': ('tuple', 'struct')}),
+    ]
+    values = [{}, [], (), {'a': 1}, [1], {'zz': 1}, None, '', 0, [1, 2], ['x'], [1, 'x'], {'a': 'x'}, [1, 2, 3]]
+    out = []
+    for nm, fields, opts in shapes:
+        spec = {'name': terms.fresh_name(nm), 'fields': [dict(f) for f in fields], 'opts': dict(opts), 'hook': None}
+        term = ('class', spec)
+        holder = {'name': terms.fresh_name('Holds' + nm), 'fields': [{'name': 'inner', 'ty': term}, {'name': 'n', 'ty': I, 'default': ('value', 0)}], 'opts': {}, 'hook': None}
+        for v in values:
+            out.append((term, v))
+            out.append((('seq', 'list', term), [v]))
+            out.append((('union', [term, ('none',)]), v))
+            out.append((('dict', S, term), {'k': v}))
+            out.append((('class', holder), {'inner': v}))
     return out
 
 
